@@ -179,7 +179,7 @@ CHECKS = {
                 "boundary or uniform 1980-2040); certificates: home objects of e_dnsname_not_valid_tld with generated SAN/CN and notBefore, and (enumerated) 27 common names that are or only resemble IP literals (zones, brackets, ports, leading zeros, short forms); 16 extreme instants per table entry (year 1 ... 9999); the Unicode spellings of the table's xn-- keys (not in the table); bit-5 look-alikes of table keys (@ [ \\ ] ^ _ ` for letters); CN = case variant of a SAN entry. Oracle: integer model of the statement "
                 "(ASCII case-insensitive). Non-trivial = (entry, boundary, side, spelling), a missing label, or a generated certificate.",
         "assumptions": ["labels containing a character that some case mapping relates to an ASCII character (KELVIN SIGN, LONG S, dotted capital I) are not judged; every other non-ASCII label is 'not in the table'",
-                        "the table generator (cmd/zlint-gtld-update) is not exercised - it fetches its data over the network; the table it produced is checked entry by entry"],
+                        "generator leg: registry data are what the two ICANN feeds publish - lower-case LDH gTLD names in the JSON, upper-case names one per LF-terminated line in the TLD list, removal not earlier than delegation, no entry called onion; the HTTP layer is replaced by a fake transport"],
     },
     "C19": {
         "legs": legs_simple("props", "^TestC19$", 8, 16),
